@@ -183,7 +183,7 @@ PROPS = {
         impl_timeout=120,
     ),
     "C03": dict(
-        proof_modules=["KsVerif.Proofs.C03"],
+        proof_modules=["KsVerif.Proofs.C03", "KsVerif.Proofs.C03Server"],
         families=["http.conv", "http.entry", "http.h2c"],
         rule="http.entry: what Analyze derives after the JSON round trips - path, query parameters (repeated keys, empty values, "
              "keys without '=', percent-escapes, '+'), method, status - for fixed targets and the http.conv conversations; "
